@@ -176,7 +176,65 @@ def rw_R12(text):
     return out, n
 
 
-REWRITES = {'R12': rw_R12, 'R11': rw_R11, 'R10': rw_R10, 'R9': rw_R9, 'R1': rw_R1, 'R2': rw_R2, 'R3': rw_R3, 'R4': rw_R4, 'R5': rw_R5, 'R8': rw_R8}
+def rw_R13(text):
+    """E.iter().take_while(|c| COND).count()        ->  { let __s = &(E); let mut __n: usize = 0; let mut __go = true; while __go && __n < __s.len() { let c = &__s[__n]; if COND { __n += 1; } else { __go = false; } } __n }
+       E.iter().rev().take_while(|c| COND).count()  ->  the same, looking at __s[__s.len() - 1 - __n]
+    (the number of leading / trailing elements that satisfy COND, as a loop: Verus has no iterator adapters)"""
+    n = 0
+    out = text
+    pos = 0
+    pat = re.compile(r'\.\s*iter\(\)\s*(\.\s*rev\(\)\s*)?\.\s*take_while\(\s*\|\s*(\w+)\s*\|')
+    while True:
+        msk = rsx.mask(out)
+        m = pat.search(msk, pos)
+        if not m:
+            break
+        # receiver expression: scan backwards over a postfix chain (identifiers, `.`, whitespace, balanced [..] / (..))
+        i = m.start()
+        while i > 0:
+            ch = msk[i - 1]
+            if ch.isalnum() or ch in '_.' or ch.isspace():
+                i -= 1
+            elif ch in ')]':
+                depth = 0
+                k = i - 1
+                while k >= 0:
+                    if msk[k] in ')]':
+                        depth += 1
+                    elif msk[k] in '([':
+                        depth -= 1
+                        if depth == 0:
+                            break
+                    k -= 1
+                i = k
+            else:
+                break
+        # do not swallow a leading keyword / `=` context: strip leading whitespace
+        recv = msk[i:m.start()]          # masked: comments inside the chain are blank
+        lead = len(recv) - len(recv.lstrip())
+        i += lead
+        recv = msk[i:m.start()].strip()
+        po = msk.index('(', msk.index('take_while', m.start()))
+        pc = rsx.match_close(msk, po)
+        bar2 = m.end() - 1
+        cond = out[bar2 + 1:pc].strip()
+        tail = re.compile(r'\s*\.\s*count\(\)').match(msk, pc + 1)
+        if not tail:
+            pos = m.end()
+            continue
+        var = m.group(2)
+        ix = '__s.len() - 1 - __n' if m.group(1) else '__n'
+        new = '{ let __s = &(%s); let mut __n: usize = 0; let mut __go = true; while __go && __n < __s.len() { let %s = &__s[%s]; if %s { __n += 1; } else { __go = false; } } __n }' % (
+            ' '.join(recv.split()), var, ix, cond)
+        old = out[i:tail.end()]
+        lost = old.count('\n') - new.count('\n')
+        out = out[:i] + new + ('\n' * max(0, lost)) + out[tail.end():]
+        pos = i + len(new)
+        n += 1
+    return out, n
+
+
+REWRITES = {'R13': rw_R13, 'R12': rw_R12, 'R11': rw_R11, 'R10': rw_R10, 'R9': rw_R9, 'R1': rw_R1, 'R2': rw_R2, 'R3': rw_R3, 'R4': rw_R4, 'R5': rw_R5, 'R8': rw_R8}
 REWRITE_DOC = {
     'R1': 'for &T{f,..} in &E[a..b]  ->  for __i in a..b { let f = E[__i].f; (Verus: no ref patterns)',
     'R2': 'Some(&b) => b  ->  Some(b) => *b (Verus: no ref patterns)',
@@ -190,6 +248,7 @@ REWRITE_DOC = {
     'R10': 'for (i, x) in V.iter().enumerate() -> for i in 0..V.len() { let x = &V[i]; (Verus: no iterator adapters)',
     'R11': 'if let Some(&x) = E { -> if let Some(__r) = E { let x = *__r; (Verus: no ref patterns)',
     'R12': 'f(.., |a, b| EXPR) -> f(.., |a, b| { EXPR }) (block body, so that a closure contract can be attached to the header)',
+    'R13': 'E.iter()[.rev()].take_while(|c| COND).count() -> a counting while-loop over the same elements from the front [back] (Verus: no iterator adapters)',
     'ARMSUB': 'a named match arm (delegation to regex-automata) is replaced by a call to an assumed shim; the dropped text is listed in dropped_code',
 }
 
